@@ -52,6 +52,154 @@ def fs_alias(text: str) -> str:
     return text
 
 
+def _literal(t):
+    """True / False for a literal truthy / falsy return term, None otherwise."""
+    if t is None:
+        return False
+    if isinstance(t, ast.Constant):
+        return bool(t.value)
+    return None
+
+
+def fsevents_predicates(ctx, P, F) -> None:
+    """The three predicates the FSEvents translation is parameterised with are decided as truth tables over their paths."""
+    from ..pse import Cfg
+
+    RP = ctx.rule(
+        "C20/fsevents-predicates",
+        "_is_recursive_event lets an event through (falsy) only when the item's directory (the directory itself for a directory event) is the "
+        "watched root, or the destination's directory is for a moved event, and blocks it otherwise; _is_historic_created_event is "
+        "'inode already known' or 'same inode at that path in the start-up snapshot' (a missing entry counts as not historic); "
+        "_is_meta_mod is the disjunction of the three metadata flags",
+        floor=5,
+    )
+    # ---- _is_recursive_event
+    rf = F.methods.get("_is_recursive_event")
+    if rf is None:
+        raise AnalysisError("anchor vanished: FSEventsEmitter._is_recursive_event")
+    ev = ([a.arg for a in rf.node.args.args if a.arg != "self"] or ["event"])[0]
+    ROOT = "self._absolute_watch_path"
+
+    def eq(c, term):
+        for a, t in c.items():
+            if a in (f"{term} == {ROOT}", f"{ROOT} == {term}"):
+                return t
+            if a in (f"{term} != {ROOT}", f"{ROOT} != {term}"):
+                return not t
+        return None
+
+    npass = nblock = 0
+    from ..model import boolified
+
+    for p in Enumerator(Cfg(P)).run(boolified(rf), selfcls="FSEventsEmitter"):
+        if p.outcome[0] != "return":
+            continue
+        lit = _literal(p.outcome[1])
+        c = p.conds()
+        isdir = c.get(f"{ev}.is_directory")
+        moved = None
+        for a, t in c.items():
+            m = re.fullmatch(rf"isinstance\({re.escape(ev)}, \((\w+), (\w+)\)\)", a)
+            if m:
+                moved = t if {m.group(1), m.group(2)} == {"FileMovedEvent", "DirMovedEvent"} else "wrong-classes"
+        src_own, src_parent, dst_parent = eq(c, f"{ev}.src_path"), eq(c, f"os.path.dirname({ev}.src_path)"), eq(c, f"os.path.dirname({ev}.dest_path)")
+        where = f"{rf.module.relpath}:{rf.node.lineno}"
+        if lit is None:
+            ctx.viol(RP, "_is_recursive_event returns a literal", f"returns `{ast.unparse(p.outcome[1])}`", where)
+            continue
+        if moved == "wrong-classes":
+            ctx.viol(RP, "_is_recursive_event moved classes", "the destination test is not made for exactly (FileMovedEvent, DirMovedEvent): moves of one flavour into the root are dropped", where)
+            continue
+        at_root = (isdir is True and src_own is True) or (isdir is False and src_parent is True)
+        dst_at_root = moved is True and dst_parent is True
+        if lit is False:
+            npass += 1
+            ctx.check(
+                at_root or dst_at_root,
+                RP,
+                f"_is_recursive_event lets through [{p.sig()[:70]}]",
+                "an event is let through although neither its own directory nor (for a move) its destination's directory was found equal to the watched root: a non-recursive watch reports items below the root's direct children (or the wrong side of the is_directory split is compared)",
+                where,
+            )
+        else:
+            nblock += 1
+            src_decided_no = (isdir is True and src_own is False) or (isdir is False and src_parent is False)
+            dst_no = moved is False or (moved is True and dst_parent is False)
+            ctx.check(
+                src_decided_no and dst_no,
+                RP,
+                f"_is_recursive_event blocks [{p.sig()[:70]}]",
+                "an event is blocked although it was not established that it lies outside the root's direct children (direct children of a non-recursive watch would go unreported)",
+                where,
+            )
+    if not npass or not nblock:
+        raise AnalysisError("_is_recursive_event: both outcomes must exist")
+
+    # ---- _is_historic_created_event
+    hf = F.methods.get("_is_historic_created_event")
+    if hf is None:
+        raise AnalysisError("anchor vanished: FSEventsEmitter._is_historic_created_event")
+    hev = ([a.arg for a in hf.node.args.args if a.arg != "self"] or ["event"])[0]
+    KNOWN = f"{hev}.inode in self._fs_view"
+    SAME = {f"self._starting_state.inode({hev}.path)[0] == {hev}.inode", f"{hev}.inode == self._starting_state.inode({hev}.path)[0]"}
+
+    class HCfg(Cfg):
+        def raises(self, kind, text, node, st):
+            if kind == "call" and (st.last_func or "").endswith("_starting_state.inode"):
+                return ["KeyError"]
+            return ()
+
+    nh = 0
+    for p in Enumerator(HCfg(P)).run(hf, selfcls="FSEventsEmitter"):
+        where = f"{hf.module.relpath}:{hf.node.lineno}"
+        if p.outcome[0] == "raise":
+            ctx.viol(RP, "_is_historic_created_event absorbs a missing snapshot entry", f"{p.outcome[1]} escapes: an item that did not exist at start-up kills the emitter thread", where)
+            continue
+        if p.outcome[0] != "return":
+            continue
+        nh += 1
+        c = p.conds()
+        state = c.get("self._starting_state")
+        missing = any(e.kind == "caught" and e.text.startswith("KeyError") for e in p.evs)
+        t = p.outcome[1]
+        lit = _literal(t)
+        known = c.get(KNOWN)
+        same = next((v for a, v in c.items() if a in SAME), None)
+        snapshot_applies = state is True and not missing
+        if lit is not None:
+            if lit:
+                ok = known is True or (snapshot_applies and same is True)
+            else:
+                ok = known is False and ((not snapshot_applies and (state is False or missing)) or same is False)
+            got = str(lit)
+        else:
+            parts = [ast.unparse(x) for x in (t.values if isinstance(t, ast.BoolOp) and isinstance(t.op, ast.Or) else [t])]
+            parts = [x for x in parts if x != "False"]
+            need = set()
+            if known is not False:
+                need.add(KNOWN)
+            ok = all(x == KNOWN or (snapshot_applies and x in SAME) for x in parts) and need <= set(parts) and (not snapshot_applies or same is False or any(x in SAME for x in parts)) and not (isinstance(t, ast.BoolOp) and isinstance(t.op, ast.And))
+            got = " or ".join(parts) or "False"
+        ctx.check(
+            ok,
+            RP,
+            f"_is_historic_created_event [snapshot={'yes' if snapshot_applies else 'missing entry' if missing else 'none'} {p.sig()[:50]}]",
+            f"returns `{got}` here; expected `{KNOWN}`" + (" or `same inode at that path in the start-up snapshot`" if snapshot_applies else " (no snapshot information: not historic)") + ": a genuinely new item's created event is suppressed, or a pre-existing item is reported created",
+            where,
+        )
+    if nh < 3:
+        raise AnalysisError("_is_historic_created_event: expected the three cases (snapshot entry, missing entry, no snapshot)")
+
+    # ---- _is_meta_mod
+    mf = F.methods.get("_is_meta_mod")
+    if mf is None:
+        raise AnalysisError("anchor vanished: FSEventsEmitter._is_meta_mod")
+    rets = [n.value for n in ast.walk(mf.node) if isinstance(n, ast.Return) and n.value is not None]
+    mev = ([a.arg for a in mf.node.args.args if a.arg != "self"] or ["event"])[0]
+    okm = len(rets) == 1 and isinstance(rets[0], ast.BoolOp) and isinstance(rets[0].op, ast.Or) and {ast.unparse(v) for v in rets[0].values} == {f"{mev}.is_inode_meta_mod", f"{mev}.is_xattr_mod", f"{mev}.is_owner_change"}
+    ctx.check(okm, RP, "_is_meta_mod is the disjunction of the three metadata flags", f"returns `{ast.unparse(rets[0]) if rets else None}`: a chmod / chown / xattr change would go unreported (or everything counts as one)", mf.loc)
+
+
 def run(ctx) -> None:
     P = ctx.P
     RWn = ctx.rule("C20/windows-emission-contract", "per ReadDirectoryChangesW action: ADDED -> created of the entry's kind (+ sub-created for a directory under a recursive watch); REMOVED -> deleted of the entry's kind; MODIFIED -> modified of the entry's kind; RENAMED_OLD then RENAMED_NEW -> one moved(source, destination) of the entry's kind (+ sub-moved for a directory under a recursive watch); REMOVED_SELF -> DirDeletedEvent(root) and stop", floor=8)
@@ -115,7 +263,7 @@ def run(ctx) -> None:
         elif kind == "is_renamed_new":
             ok = bool(ems) and ems[0].kind == "E" and isdir is not None and ems[0].cls == f"{fl}MovedEvent" and len(ems[0].args) == 2 and ems[0].args[0].startswith(REM) and ems[0].args[1] == ENTRY
             want_sub = bool(isdir) and rec is True
-            subs = [e for e in ems[1:] if e.kind in ("G", "G?")]
+            subs = [e for e in ems[1:] if e.kind == "G"]  # "G?": the generator is iterated but its elements are not all queued
             ok = ok and len(ems) == (2 if want_sub else 1) and (not want_sub or (subs and subs[0].cls == "generate_sub_moved_events" and subs[0].args[:1] and subs[0].args[0].startswith(REM) and subs[0].args[1] == ENTRY))
             if isdir and rec is None:
                 ok = False
@@ -134,7 +282,9 @@ def run(ctx) -> None:
         elif kind == "is_removed":
             # the API gives no kind for a vanished entry; the contract still asks for the entry's kind
             decided = isdir is not None
-            ok = len(ems) == 1 and decided and ems[0].cls == f"{fl}DeletedEvent" and ems[0].args == [ENTRY]
+            one = len(ems) == 1 and ems[0].kind == "E" and ems[0].cls.endswith("DeletedEvent") and ems[0].args == [ENTRY]
+            ctx.check(one, RWn, "action=is_removed emits one deleted(entry)", f"REMOVED emits {brief}; expected exactly one deleted event carrying the entry's path (a removal that is not reported leaves the entry in every replay)", loc)
+            ok = (not one) or (decided and ems[0].cls == f"{fl}DeletedEvent")
             ctx.check(ok, RWn, "action=is_removed flavour", f"REMOVED emits {brief} whatever the entry was: a deleted directory is reported as FileDeletedEvent (a replay keeps a phantom directory; C03 flavour clause)", loc)
         elif kind == "is_removed_self":
             ok = len(ems) == 2 and ems[0].kind == "E" and ems[0].cls == "DirDeletedEvent" and ems[0].args == ["self.watch.path"] and ems[1].kind == "STOP"
@@ -222,7 +372,7 @@ def run(ctx) -> None:
                 mv = [e for e in moved if len(e.args) == 2 and e.args[0] == SRC and re.fullmatch(DST_RE, e.args[1])]
                 if len(mv) != 1 or len(moved) != 1:
                     problems.append(f"renamed with partner: expected exactly one moved(source, destination), found {[e.brief() for e in moved]}")
-                gens = [e for e in ems if e.kind in ("G", "G?") and e.cls == "generate_sub_moved_events"]
+                gens = [e for e in ems if e.kind == "G" and e.cls == "generate_sub_moved_events"]
                 if len(gens) != 1 or gens[0].args[:1] != [SRC]:
                     problems.append("renamed with partner: synthetic sub-moved events missing or from the wrong source")
                 par = [e for e in ems if e.kind == "E" and e.cls == "DirModifiedEvent" and e.args and "os.path.dirname(" in e.args[0]]
@@ -231,9 +381,30 @@ def run(ctx) -> None:
             elif moved:
                 problems.append("a moved event without a partner event")
             if N is True and not D and X:
-                gens = [e for e in ems if e.kind in ("G", "G?") and e.cls == "generate_sub_created_events"]
+                gens = [e for e in ems if e.kind == "G" and e.cls == "generate_sub_created_events"]
                 if len(gens) != 1 or gens[0].args != [SRC]:
                     problems.append("moved in: synthetic sub-created events missing")
+        # content / metadata changes: exactly one modified event of the item's flavour per flagged record (also for the partner)
+        M, MM = c.get("ev.is_modified"), c.get("self._is_meta_mod(ev)")
+        mods = [e for e in prim if e.cls.endswith("ModifiedEvent")]
+        if M is None or (M is False and MM is None):
+            problems.append("the record's modified / metadata flags are not consulted on this path: content changes coalesced into this record go unreported")
+        if M is True or MM is True:
+            if len(mods) != 1:
+                problems.append(f"modified / metadata flag set: exactly one modified event for the item expected, found {len(mods)}")
+        elif M is False and MM is False and mods:
+            problems.append("a modified event for an item whose record carries neither the modified nor a metadata flag")
+        if D:
+            DM, DMM = c.get("dst.is_modified"), c.get("self._is_meta_mod(dst)")
+            dmods = [e for e in ems if e.kind == "E" and e.cls.endswith("ModifiedEvent") and e.args and re.fullmatch(DST_RE, e.args[0])]
+            if DM is None or (DM is False and DMM is None):
+                problems.append("the rename partner's modified / metadata flags are not consulted: a change coalesced into the destination record goes unreported")
+            if (DM is True or DMM is True) and len(dmods) != 1:
+                problems.append(f"the rename partner carries a modified / metadata flag: exactly one modified event under the new path expected, found {len(dmods)}")
+            if DM is False and DMM is False and dmods:
+                problems.append("a modified event for a rename partner without modified / metadata flag")
+        if any(e.kind == "G?" for e in ems):
+            problems.append("a synthetic-event generator is iterated but its elements are not all queued")
         for e in created + deleted:
             i = ems.index(e)
             nxt = ems[i + 1] if i + 1 < len(ems) else None
@@ -322,6 +493,17 @@ def run(ctx) -> None:
                 okg = False
         ctx.check(okg, RN, "override forwards iff recursive watch or a direct child", "the override forwards events that lie deeper than the root's direct children for a non-recursive watch (or drops direct ones)", qf.loc)
 
+        # the forwarded call hands over exactly (this emitter, the event)
+        evp = ([a.arg for a in qf.node.args.args if a.arg != "self"] or ["event"])[0]
+        for m, n in base_calls:
+            if m != "queue_event":
+                continue
+            recv = ast.unparse(n.func.value)
+            args = [ast.unparse(a) for a in n.args]
+            want = ["self", evp] if recv == "EventEmitter" else [evp]
+            ctx.check(args == want, RN, "override forwards (self, event)", f"the base queue_event is called with {args}, expected {want}", f"{F.module.relpath}:{n.lineno}")
+    fsevents_predicates(ctx, P, F)
+
     # ---------------------------------------------------------------- inotify header constants
     pf = P.find_method("Inotify", "_parse_event_buffer")
     if pf is None:
@@ -407,6 +589,26 @@ VARIANTS = [
     dict(name="B FSEvents moved-out item not discarded", expect="fire", rule="C20/fsevents-inode-bookkeeping", edits=[(FS, "                        self._queue_deleted_event(event, src_path, src_dirname)\n                        self._fs_view.discard(event.inode)\n\n                        # Skip further coalesced processing.", "                        self._queue_deleted_event(event, src_path, src_dirname)\n\n                        # Skip further coalesced processing.")]),
     dict(name="B FSEvents historic filter dropped", expect="fire", rule="C20/fsevents-emission-invariants", edits=[(FS, "                if event.is_created and not self._is_historic_created_event(event):\n                    self._queue_created_event(event, src_path, src_dirname)", "                if event.is_created:\n                    self._queue_created_event(event, src_path, src_dirname)")]),
     dict(name="B FSEvents rename without sub-moved events", expect="fire", rule="C20/fsevents-emission-invariants", edits=[(FS, "                        for sub_moved_event in generate_sub_moved_events(src_path, dst_path):\n                            self.queue_event(sub_moved_event)\n", "")]),
+    dict(name="B non-recursive predicate: root comparison negated", expect="fire", rule="C20/fsevents-predicates", edits=[(FS, "        if src_path == self._absolute_watch_path:\n            return False\n", "        if src_path != self._absolute_watch_path:\n            return False\n")]),
+    dict(name="B non-recursive predicate: wrong side of the is_directory split", expect="fire", rule="C20/fsevents-predicates", edits=[(FS, "src_path = event.src_path if event.is_directory else os.path.dirname(event.src_path)", "src_path = event.src_path if not event.is_directory else os.path.dirname(event.src_path)")]),
+    dict(name="B non-recursive predicate: everything passes", expect="fire", rule="C20/fsevents-predicates", edits=[(FS, "                return False\n\n        return True\n", "                return False\n\n        return False\n")]),
+    dict(name="B non-recursive predicate: destination test dropped", expect="fire", rule="C20/fsevents-predicates", edits=[(FS, "            if dest_path == self._absolute_watch_path:\n                return False\n", "")]),
+    dict(name="B non-recursive predicate: only file moves count", expect="fire", rule="C20/fsevents-predicates", edits=[(FS, "if isinstance(event, (FileMovedEvent, DirMovedEvent)):", "if isinstance(event, (FileMovedEvent, FileMovedEvent)):")]),
+    dict(name="E non-recursive predicate as one expression", expect="silent", edits=[(FS, "        if src_path == self._absolute_watch_path:\n            return False\n\n        if isinstance(event, (FileMovedEvent, DirMovedEvent)):\n            # when moving something into the watch path we must always take the dirname,\n            # otherwise we miss out on `DirMovedEvent`s\n            dest_path = os.path.dirname(event.dest_path)\n            if dest_path == self._absolute_watch_path:\n                return False\n\n        return True\n", "        if src_path == self._absolute_watch_path:\n            return False\n        return not (isinstance(event, (FileMovedEvent, DirMovedEvent)) and os.path.dirname(event.dest_path) == self._absolute_watch_path)\n")]),
+    dict(name="B historic predicate: and instead of or", expect="fire", rule="C20/fsevents-predicates", edits=[(FS, "        return in_history or before_start", "        return in_history and before_start")]),
+    dict(name="B historic predicate: snapshot ignored", expect="fire", rule="C20/fsevents-predicates", edits=[(FS, "        return in_history or before_start", "        return in_history")]),
+    dict(name="B historic predicate: inode comparison flipped", expect="fire", rule="C20/fsevents-predicates", edits=[(FS, "before_start = old_inode == event.inode", "before_start = old_inode != event.inode")]),
+    dict(name="B historic predicate: a missing entry counts as historic", expect="fire", rule="C20/fsevents-predicates", edits=[(FS, "            except KeyError:\n                before_start = False", "            except KeyError:\n                before_start = True")]),
+    dict(name="B historic predicate: KeyError escapes", expect="fire", rule="C20/fsevents-predicates", edits=[(FS, "            try:\n                old_inode = self._starting_state.inode(event.path)[0]\n                before_start = old_inode == event.inode\n            except KeyError:\n                before_start = False\n", "            old_inode = self._starting_state.inode(event.path)[0]\n            before_start = old_inode == event.inode\n")]),
+    dict(name="E historic predicate with early returns", expect="silent", edits=[(FS, "        in_history = event.inode in self._fs_view\n\n        if self._starting_state:\n            try:\n                old_inode = self._starting_state.inode(event.path)[0]\n                before_start = old_inode == event.inode\n            except KeyError:\n                before_start = False\n        else:\n            before_start = False\n\n        return in_history or before_start", "        if event.inode in self._fs_view:\n            return True\n        if self._starting_state:\n            try:\n                return self._starting_state.inode(event.path)[0] == event.inode\n            except KeyError:\n                return False\n        return False")]),
+    dict(name="B metadata predicate drops owner changes", expect="fire", rule="C20/fsevents-predicates", edits=[(FS, "return event.is_inode_meta_mod or event.is_xattr_mod or event.is_owner_change", "return event.is_inode_meta_mod or event.is_xattr_mod")]),
+    dict(name="B FSEvents modified flag ignored", expect="fire", rule="C20/fsevents-emission-invariants", edits=[(FS, "                    self._queue_created_event(event, src_path, src_dirname)\n\n                self._fs_view.add(event.inode)\n\n                if event.is_modified or self._is_meta_mod(event):\n                    self._queue_modified_event(event, src_path, src_dirname)\n\n                if event.is_renamed:", "                    self._queue_created_event(event, src_path, src_dirname)\n\n                self._fs_view.add(event.inode)\n\n                if event.is_renamed:")]),
+    dict(name="B FSEvents modified reported only without the flags", expect="fire", rule="C20/fsevents-emission-invariants", edits=[(FS, "                if event.is_modified or self._is_meta_mod(event):\n                    self._queue_modified_event(event, src_path, src_dirname)\n\n                if event.is_renamed:", "                if not (event.is_modified or self._is_meta_mod(event)):\n                    self._queue_modified_event(event, src_path, src_dirname)\n\n                if event.is_renamed:")]),
+    dict(name="B FSEvents partner's modified flag ignored", expect="fire", rule="C20/fsevents-emission-invariants", edits=[(FS, "                        if dst_event.is_modified or self._is_meta_mod(dst_event):\n                            self._queue_modified_event(dst_event, dst_path, dst_dirname)\n", "")]),
+    dict(name="B FSEvents sub-moved events generated but not queued", expect="fire", rule="C20/fsevents-emission-invariants", edits=[(FS, "                        for sub_moved_event in generate_sub_moved_events(src_path, dst_path):\n                            self.queue_event(sub_moved_event)", "                        for sub_moved_event in generate_sub_moved_events(src_path, dst_path):\n                            logger.debug(\"%s\", sub_moved_event)")]),
+    dict(name="B Windows sub-moved events generated but not queued", expect="fire", rule="C20/windows-emission-contract", edits=[("observers/read_directory_changes.py", "                            for sub_moved_event in generate_sub_moved_events(src_path, dest_path):\n                                self.queue_event(sub_moved_event)", "                            for sub_moved_event in generate_sub_moved_events(src_path, dest_path):\n                                pass")]),
+    dict(name="B Windows REMOVED not reported", expect="fire", rule="C20/windows-emission-contract", edits=[("observers/read_directory_changes.py", "                    self.queue_event(FileDeletedEvent(src_path))", "                    pass")]),
+    dict(name="B FSEvents override forwards (event, self)", expect="fire", rule="C20/nonrecursive-filter-unbypassable", edits=[(FS, "EventEmitter.queue_event(self, event)", "EventEmitter.queue_event(event, self)")]),
     dict(name="B FSEvents non-recursive filter inverted", expect="fire", rule="C20/nonrecursive-filter-unbypassable", edits=[(FS, "if self._watch.is_recursive or not self._is_recursive_event(event):", "if self._watch.is_recursive or self._is_recursive_event(event):")]),
     dict(name="B Windows walk never stops", expect="fire", rule="C20/windows-buffer-walk", edits=[("observers/winapi.py", "        if num_to_skip <= 0:\n            break\n", "")]),
     dict(name="E helper extraction in the FSEvents translator", expect="silent", edits=[(FS, "                    self._queue_deleted_event(event, src_path, src_dirname)\n                    self._fs_view.discard(event.inode)\n\n            if event.is_root_changed:", "                    self._forget(event, src_path, src_dirname)\n\n            if event.is_root_changed:"), (FS, "    def events_callback(self, paths", "    def _forget(self, event, src_path, src_dirname) -> None:\n        self._queue_deleted_event(event, src_path, src_dirname)\n        self._fs_view.discard(event.inode)\n\n    def events_callback(self, paths")]),
